@@ -94,7 +94,18 @@ func (h *handler) ServeHTTP(w http.ResponseWriter, r *http.Request) {
 
 	err = json.Unmarshal(b, &basePL)
 	if err != nil {
-		h.returnError(w, http.StatusBadRequest, backend.Other, err.Error())
+		// a member that could not be decoded does not keep the other members
+		// from being decoded: answer with the message the request asks for
+		switch basePL.MessageType {
+		case backend.JoinReq:
+			h.returnJoinReqError(w, basePL, http.StatusBadRequest, backend.Other, err.Error())
+		case backend.RejoinReq:
+			h.returnRejoinReqError(w, basePL, http.StatusBadRequest, backend.Other, err.Error())
+		case backend.HomeNSReq:
+			h.returnHomeNSReqError(w, basePL, http.StatusBadRequest, backend.Other, err.Error())
+		default:
+			h.returnError(w, http.StatusBadRequest, backend.Other, err.Error())
+		}
 		return
 	}
 
